@@ -155,6 +155,10 @@ func sortEigensystem(eigenvectors Matrix, eigenvalues Vector) {
 func eigensystem(a Matrix, inSitu *InSitu, computeEigenvectors, symmetric bool, args ...interface{}) (Vector, Matrix, error) {
   eigenvalues  := inSitu.Eigenvalues
   eigenvectors := inSitu.Eigenvectors
+  if !computeEigenvectors {
+    // inSitu may carry a buffer from a previous call
+    eigenvectors = nil
+  }
 
   n, _ := a.Dims()
 
